@@ -345,6 +345,16 @@ func makeLayout(p *Program, k int, r *lib.Rand) Layout {
 	if style == "lexedge" && r.Chance(50) {
 		g.align(p, &lay)
 	}
+	if style == "lexedge" && r.Chance(4) {
+		// a tall file: the program starts next to a line number where a narrower counter would wrap
+		n := []int{256, 32768, 65536}[r.Pick(3, 2, 2)] - 6 + r.Intn(10)
+		one := g.nl()
+		if len(one) > 1 {
+			one = "\n"
+		}
+		lay.Seps[0] = strings.Repeat(one, n) + lay.Seps[0]
+		lay.Style += "/tall"
+	}
 	return lay
 }
 
